@@ -100,10 +100,14 @@ class TapeRecorder:
     def __pow__(self, power, modulo=None):
         if power == 0:
             return self.__class__(self.algebra, expr='(1,)', keys=(0,))
+        elif power < 0:
+            res = x = self.inv()
+            power *= -1
+        else:
+            res = x = self
 
-        res = self
         for i in range(1, power):
-            res = res.gp(self)
+            res = res.gp(x)
         return res
 
     # Unary operators
